@@ -1,5 +1,6 @@
 import QV.Driver.Util
 import QV.Spec.Server
+import QV.Model.Server
 
 /-!
   group `server`
@@ -49,6 +50,49 @@ def serverHandler : Handler := fun op args =>
         | .refused => "refused" | .servFailZone => "servfail-zone" | .answer => "answer"
       some ("ok", "tags:" ++ ",".intercalate (audit c p r ur tr) ++ s!"#{v}{if sc.edns then "+edns" else ""}")
     | _, _, _, _, _ => some bad
+  | _, _ => none
+
+end QV.Driver
+
+/-! ### `srv`: the server model -/
+namespace QV.Driver
+open QV QV.Spec.Server
+
+/-- `Rdata::equals` for zone de-duplication -/
+def srvEqv : Zone.Eqv := fun c t a b =>
+  match Rdata.equals c t a.toArray b.toArray with
+  | .ok r => r
+  | _ => false
+
+def mkZoneEntry (z : ZoneCfg) : Option Server.ZoneEntry := do
+  let (apexW, rest) ← Writer.WName.parse z.apex
+  if rest ≠ [] then none
+  let apexN ← NameL.ofWire z.apex
+  let kind := match z.kind with
+    | .loaded => Catalog.Kind.Loaded | .notYetLoaded => .NotYetLoaded | .failedToLoad => .FailedToLoad
+  let z0 := Zone.Zone.new apexN z.cls (if z.glueWide then .wide else .narrow)
+  let recs ← z.recs.mapM (fun r => do
+    let o ← NameL.ofWire r.owner
+    pure (⟨o, r.ty, z.cls, Writer.ttlFrom r.ttl, r.rdata⟩ : Zone.Rec))
+  pure ⟨apexW, z.cls, kind, Zone.build srvEqv z0 recs⟩
+
+def srvHandler : Handler := fun op args =>
+  match op, args with
+  | "srv", [tr, payload, cat, req] =>
+    match payload.toNat?, parseCatalog cat, unhex req with
+    | some p, some c, some r =>
+      match c.mapM mkZoneEntry with
+      | some zs =>
+        let cfg : Server.Cfg := { payload := p, zones := zs }
+        let t := if tr = "t" then Server.Transport.tcp else .udp
+        let res := match Server.handleMessage cfg t 0 65535 r with
+          | .ok (some b) => hexOf b
+          | .ok none => "none"
+          | .err _ => "err"
+          | .panic => "panic"
+        some (res, "-")
+      | none => some bad
+    | _, _, _ => some bad
   | _, _ => none
 
 end QV.Driver
